@@ -278,6 +278,8 @@ class HddSplit(Suite):
             first_dense = rng.chance(0.6)
             for k in range(nst):
                 nsect = rng.randint(4, 48)
+                if k == 0 and len(out) % 3 == 2:
+                    nsect = rng.pick([15, 31, 47])       # a boundary one sector short of a stream-buffer boundary
                 # (the storage's End bounds the disk, not the size in the image headers: images may be larger)
                 layers = gen_hds_layers(rng, depth, nsect, extra=rng.pick([5, 120] if directed else [0, 0, 0, 5, 120]))
                 if k == 0 and first_dense:
@@ -299,6 +301,9 @@ class HddSplit(Suite):
                 acc += st["nsect"]
                 bounds.append(acc)
             reqs = [[0, total * 512]]
+            for b in bounds[:-1]:
+                # small reads shortly before a storage boundary (the buffer that serves them ends at, or one sector past, it)
+                reqs.append([max(0, b * 512 - rng.randint(600, 2000)), rng.randint(1, 500)])
             for _ in range(6):
                 b = rng.pick(bounds)
                 a = max(0, min(total * 512 - 1, b * 512 - rng.randint(0, 6000))) if rng.chance(0.7) else rng.randrange(total * 512)
